@@ -598,7 +598,12 @@ def _split_top(s: str) -> list:
     return out
 
 
-def inline_new_helpers(tr: dict, specs: dict, locked_fns: set) -> list:
+def sig_sha(f: dict) -> str:
+    """hash of a function's source-level signature (parameter names and types before rule T1, return type)"""
+    return hashlib.sha256(json.dumps([[p["name"], p.get("orig_ty", p["ty"])] for p in f["params"]] + [f.get("ret")]).encode()).hexdigest()[:16]
+
+
+def inline_new_helpers(tr: dict, specs: dict, locked_fns: set, force: set = frozenset()) -> list:
     """A function that did not exist when the unit was locked and has no contract in the spec pack is typically a helper
     introduced by an edit. Modular verification knows nothing about it, so its callers would be undecidable. Where the
     helper is a plain block (no `return`, no `?`, no loop, no closure, no generics, not recursive) its translated body is
@@ -613,10 +618,10 @@ def inline_new_helpers(tr: dict, specs: dict, locked_fns: set) -> list:
         for f in fns:
             k = f["key"]
             sp = specs.get(k)
-            if k in locked_fns or (sp and (sp.contract.strip() or sp.trusted)):
+            if k not in force and (k in locked_fns or (sp and (sp.contract.strip() or sp.trusted))):
                 continue
             b = f["body"]
-            if (re.search(r"\breturn\b", b) or "?" in b or "__vx_" in b or f.get("generics") or k in (f.get("callees") or [])
+            if (re.search(r"\breturn\b", b) or "?" in b or re.search(r"__vx_\w+!", b) or f.get("generics") or k in (f.get("callees") or [])
                     or f.get("in_trait_decl") or f.get("trait")):
                 continue
             if not any(k in (g.get("callees") or []) for g in fns if g is not f):
@@ -671,7 +676,7 @@ def inline_new_helpers(tr: dict, specs: dict, locked_fns: set) -> list:
                 g["body"] = body
                 g["callees"] = sorted((set(g["callees"]) - ({k} if not re.search(pat, body) else set())) | set(cand.get("callees") or []))
                 g["n_loops"] = g.get("n_loops", 0)
-                notes.append(f"{k} (new, no contract) inlined into {g['key']}")
+                notes.append(f"{k} ({'signature changed, contract dropped' if k in force else 'new, no contract'}) inlined into {g['key']}")
         if ok_all:
             tr["fns"] = [f for f in fns if f is not cand]
         else:
@@ -774,6 +779,9 @@ def spec_rename(unit: dict, sf: str, text: str) -> str:
     BORROWED spec/contract file, for units that combine two spec packs defining the same name (e.g. `cur_owner`)"""
     for a, b in unit.get("spec_renames", {}).get(sf, {}).items():
         text = re.sub(r"\b%s\b" % re.escape(a), b, text)
+    # enum variants renamed in the sources since the unit was locked (same position, same payload): ghost text follows
+    for a, b in unit.get("_variant_renames", {}).items():
+        text = re.sub(r"\b%s\b" % re.escape(a), b, text)
     # "spec_subst": {"<borrowed spec file as listed>": [["old text", "new text"], …]} — literal replacement of ONE occurrence;
     # used by strict units to STRENGTHEN a borrowed declaration (e.g. give a trait method a `requires`) without copying the file
     for a, b in unit.get("spec_subst", {}).get(sf, []):
@@ -827,10 +835,45 @@ def assemble(unit: dict, scratch: str, passname="A") -> Assembled:
             break
         job["fns"] = list(job["fns"]) + new
         tr = run_translator(job, scratch, unit["name"])
+    type_shapes = {t["name"]: [[v["name"], [fl["ty"] for fl in v["body"]["fields"]]] for v in t["variants"]]
+                   for t in tr["types"] if t.get("kind") == "enum" and t.get("variants") is not None}
+    tlp = os.path.join(unit["dir"], "types.lock.json")
+    variant_renames = {}
+    if os.path.exists(tlp):
+        for name, old_vs in json.load(open(tlp)).items():
+            new_vs = type_shapes.get(name)
+            if new_vs and len(new_vs) == len(old_vs) and all(a[1] == b[1] for a, b in zip(old_vs, new_vs)):
+                old_names, new_names = [a[0] for a in old_vs], [b[0] for b in new_vs]
+                if old_names != new_names and len(set(new_names)) == len(new_names) and not (set(new_names) - set(old_names)) & set(old_names):
+                    for a, b in zip(old_names, new_names):
+                        if a != b and b not in old_names:
+                            variant_renames[f"{name}::{a}"] = f"{name}::{b}"
+    unit = dict(unit, _variant_renames=variant_renames)
     specs = {}
     for sf in unit.get("contracts", []):
         p = os.path.join(unit["dir"], sf)
         specs.update(parse_vspec(spec_rename(unit, sf, open(p).read()), p))
+    # a contracted function whose source-level signature is not the one its contract was locked against: the contract text
+    # no longer applies (it names parameters that are gone / new). If the function is a plain block it is inlined into its
+    # callers, whose own contracts then decide; its own labelled clauses are reported as not checkable (check: exit 2 unless
+    # a caller fails).
+    locked_sigs = {}
+    if os.path.exists(lockp):
+        for l in open(lockp):
+            if l.startswith("sig:"):
+                k_, h_ = l.strip()[4:].rsplit(":", 1)
+                locked_sigs[k_] = h_
+    sig_changed = {f["key"] for f in tr["fns"] if f["key"] in locked_sigs and f["key"] in specs and locked_sigs[f["key"]] != sig_sha(f)}
+    dropped_contracts = []
+    for k_ in sorted(sig_changed):
+        labs_ = re.findall(r"//@\s*(\S+)", specs[k_].contract)
+        before = {f["key"] for f in tr["fns"]}
+        saved = specs.pop(k_)
+        notes_ = inline_new_helpers(tr, specs, locked_fns, force={k_})
+        if k_ in {f["key"] for f in tr["fns"]}:
+            specs[k_] = saved          # could not be inlined: keep it (the unit will be undecided on a type error)
+        else:
+            dropped_contracts.append({"fn": k_, "labels": labs_, "notes": notes_})
     inlined = inline_new_helpers(tr, specs, locked_fns)
     fn_by_key = {f["key"]: f for f in tr["fns"]}
     # "rename_types": {"Map": "SdkMap"} — an SDK type whose name collides with a vstd type is renamed in the
@@ -910,9 +953,13 @@ def assemble(unit: dict, scratch: str, passname="A") -> Assembled:
     anchor_lock = _al.get(passname, {})
     raw_lock = _al.get(passname + ":raw", {})
     raw_bodies, renamed_locals = {}, []
+    became_effectful = []
+    asm.became_effectful = became_effectful
+    asm.type_shapes, asm.variant_renames = type_shapes, variant_renames
     asm.raw_bodies, asm.renamed_locals = raw_bodies, renamed_locals
     asm.lost_hints, asm.anchor_bodies = lost_hints, anchor_bodies
-    asm.inlined = inlined
+    asm.inlined = inlined + [n for d in dropped_contracts for n in d['notes']]
+    asm.dropped_contracts = dropped_contracts
     asm.all_fn_keys = sorted({k.split('#', 1)[1] for k in tr.get('all_fn_keys', [])})
     asm.borrowed = borrowed
     asm.spec_region = (spec_region_start, spec_region_end)
@@ -1014,6 +1061,20 @@ def assemble(unit: dict, scratch: str, passname="A") -> Assembled:
                 i = body.index("{")
                 body = body[:i + 1] + "\n    broadcast use " + ", ".join(bc.split(",")) + ";" + body[i + 1:]
             contract = sp.contract if sp else ""
+            # a function that took `&Env` when its contract was written and now takes `&mut Env` (an edit made it write
+            # state): the contract's bare `e@` meant "the state, which this function cannot change" - read it as the state on
+            # entry and make the implicit frame explicit, so that the new effect is checked instead of being a type error
+            for p_ in f["params"]:
+                if p_["ty"].replace(" ", "") == "&mutEnv" and contract.strip():
+                    en = p_["name"]
+                    bare = re.compile(r"(?<![\w.])(?<!old\()(?<!final\()%s@" % re.escape(en))
+                    if bare.search(contract) and "ensures" in contract:
+                        contract = bare.sub(f"old({en})@", contract)
+                        contract = contract.rstrip()
+                        if not contract.endswith(","):
+                            contract += ","
+                        contract += f"\n        final({en})@ =~~= old({en})@,   // (implicit when the contract was written: the function took `&Env`)"
+                        became_effectful.append(key)
             attrs = ""
             if sp and sp.trusted:
                 attrs = "#[verifier::external_body]\n"
